@@ -1343,11 +1343,13 @@ func init() {
 		"pkg/rtpreceiver.Receiver (one per track, reliable mode; ProcessPacket2, ProcessSenderReport, PacketNTP; its ticker runs)",
 		"pkg/ntp Encode/Decode (inside Sender/Receiver and called directly for the round trip)",
 		"pion/rtcp.SenderReport values as produced by the Sender (handed over as values, not marshalled)",
+		"mode whole (6% of the runs): gortsplib.Server, ServerStream (WritePacketRTPWithNTP), ServerSession, gortsplib.Client (PacketNTP), i.e. the wiring of sender and receiver in server_stream*.go, server_session*.go, client_media.go, client_format.go, with reports marshalled and carried as RTCP",
 	}
 	f.Simulated = []string{
 		"writer: per track an exact 64-bit tick timeline K, RTP timestamp uint32(TS0+K), linear association instant(K) = base + start + K/rate; a PTS==DTS packet is written at the instant of its tick (rounded down to ns) with NTP = the writer's clock (the same clock as Sender.TimeNow); a B packet (PTS!=DTS) is written later than its tick with NTP = instant(K)",
 		"link: every RTP packet and every sender report gets an independent hash-derived delay in [0,max]; packets of a track stay in order, reports of a track stay in order, packets and reports overtake each other freely",
 		"wall clock: Sender.TimeNow and Receiver.TimeNow are the fake clock plus a scenario offset that places the run anywhere in 1970-01-01 .. 2036-02-07 (NTP era 0); the GlobalDecoder reads the fake clock itself (it only uses differences)",
+		"mode whole: TCP / UDP sockets (simnet), the application on both sides (a writer per format, a reader that queries PacketNTP)",
 		"time: one driver goroutine with an event queue ordered by (instant, insertion); tickers of Sender/Receiver fire on the fake clock; the driver waits for quiescence (synctest.Wait) before every event",
 	}
 	f.Excluded = []string{
